@@ -482,7 +482,7 @@ class DemoStorage(ConflictResolvingStorage):
             if (transaction is not self._transaction):
                 raise ZODB.POSException.StorageTransactionError(
                     "tpc_finish called with wrong transaction")
-            self._issued_oids.difference_update(self._stored_oids)
+            stored_oids = self._stored_oids
             self._stored_oids = set()
             self._transaction = None
             try:
@@ -490,8 +490,12 @@ class DemoStorage(ConflictResolvingStorage):
             except:  # noqa: E722 do not use bare 'except'
                 # We have forgotten the transaction, so our tpc_abort will
                 # ignore it: let the changes storage let go of it too.
+                # (The ids it used stay issued, as after an abort: nothing
+                # has been stored under them.)
                 self.changes.tpc_abort(transaction)
                 raise
+            else:
+                self._issued_oids.difference_update(stored_oids)
             finally:
                 self._commit_lock.release()
         return tid
